@@ -149,7 +149,9 @@ def gen_config(rng, prop, tier="quick"):
     nmodes = rng.choice([0, 1, 1, 2, 3])
     modes = []
     for i in range(nmodes):
-        modes.append({"module": f"m{i}", "cls": f"Mode{i}", "name": rng.choice(["Alpha", "Two Ball", "zz", "Drive_Fwd", "B"]) + str(i), "default": False})
+        modes.append({"module": f"m{i}", "cls": f"Mode{i}", "name": rng.choice(["Alpha", "Two Ball", "zz", "Drive_Fwd", "B"]) + str(i), "default": False,
+                      # a mode object that evaluates false (e.g. a scripted mode whose __len__ is the number of steps left)
+                      "falsy": rng.random() < 0.12})
     if modes and rng.random() < 0.7:
         rng.choice(modes)["default"] = True
     if dyadic:
@@ -165,6 +167,7 @@ def gen_config(rng, prop, tier="quick"):
         "boot_us": (rng.choice([0, 64, 6400]) * GRID_US) if dyadic else rng.choice([0, 181546, 5_000_003]),
         # legal settings of the error-report rate limit: never repeat (inf), always (0), NaN
         "error_report_interval": rng.choice(["inf", "nan", 0, 1e-9]) if rng.random() < (0.3 if prop == "C07" else 0.08) else None,
+        "pre_robot": rng.random() < 0.1,
     }
     return cfg
 
@@ -791,6 +794,8 @@ def build_sources(cfg):
         S = ["import builtins", "SIM = builtins._verif_sim", f"class {m['cls']}:", f"    MODE_NAME = {m['name']!r}"]
         if m["default"]:
             S.append("    DEFAULT = True")
+        if m.get("falsy"):
+            S += ["    def __len__(self):", "        return 0"]
         for h, args in (("on_enable", ""), ("on_disable", "")):
             S.append(f"    def {h}(self):")
             S.append(f"        SIM.cb('mode.{m['name']}.{h}')")
@@ -882,6 +887,7 @@ class _Sim:
                 self.fbvals[f"{owner}.fb.{fb['name']}"] = fb
         self.keys = sorted((c["name"], a["attr"]) for c in cfg["components"] for a in (c["resets"] + c["plain_attrs"]))
         self.names, self.ctor_count, self.objs = {}, {}, []
+        self.muted, self.pre_count, self.pre_robot = False, {}, None
         # declaration order as the framework sees it: base-class robot annotations first
         from models.robot_model import declared_order
         self.order = declared_order(cfg)
@@ -1038,6 +1044,13 @@ class _Sim:
 
     def ctor(self, obj, clsname):
         """k-th construction of a class = k-th declared component of that class (creation follows declaration order)"""
+        if self.muted:
+            # an earlier robot of the same process builds its own components: they are not this robot's
+            k = self.pre_count.get(clsname, 0)
+            self.pre_count[clsname] = k + 1
+            self.names[id(obj)] = f"earlier_robot.{clsname}#{k}"
+            self.objs.append(obj)
+            return 0
         members = [c["name"] for c in self.order if (c.get("clone_of") or c["name"]).upper() == clsname]
         k = self.ctor_count.get(clsname, 0)
         self.ctor_count[clsname] = k + 1
@@ -1050,7 +1063,7 @@ class _Sim:
         return self.names.get(id(obj), "<unknown component>")
 
     def note(self, site, extra=None):
-        if self.aborted:
+        if self.aborted or self.muted:
             return
         try:
             n = self.visits.get(site, 0) + 1
@@ -1065,7 +1078,7 @@ class _Sim:
         self.world.EMIT({"status": "error", "error": "harness exception inside a seam: " + traceback.format_exc()[-3000:]})
 
     def cb(self, site, extra=None, owner=None):
-        if self.aborted:
+        if self.aborted or self.muted:
             return 0
         do_raise = False
         self.cur_owner = owner
@@ -1240,6 +1253,28 @@ def compare(cfg, mlog, moutcome, ilog, ioutcome, exact):
     return None
 
 
+def later_divergence(mlog, ilog, start, owned):
+    """After a first divergence outside the property's projection the two logs are re-aligned on their call sites
+    (longest common subsequence) and the remaining differences are classified: the property is quantified over all
+    histories, so what follows a foreign deviation must still satisfy it.  Only the order / presence of calls is
+    compared from there on (visit numbers, clock and values are out of step once a call is missing)."""
+    import difflib
+    A = [r[0] for r in _canon(mlog)][start:]
+    B = [r[0] for r in _canon(ilog)][start:]
+    sm = difflib.SequenceMatcher(a=A, b=B, autojunk=False)
+    for tag, i1, i2, j1, j2 in sm.get_opcodes():
+        if tag == "equal":
+            continue
+        exp, got = A[i1:i2], B[j1:j2]
+        for se in exp or [None]:
+            for sa in got or [None]:
+                kind = _classify(se, sa)
+                if kind in owned and kind not in ("exception", "hang"):
+                    return (kind, f"(after an earlier divergence at event {start}) around event {start + i1}: expected {exp or 'nothing'}, "
+                                  f"implementation did {got or 'nothing'}", start + i1)
+    return None
+
+
 # =============================================================== execution (child only)
 
 def execute(plan, trace=False):
@@ -1386,6 +1421,10 @@ def execute(plan, trace=False):
                 if kind in owned:
                     raise Violation(prop, f"model.{kind}", msg, sig=f"{prop}:model.{kind}", at=at)
                 foreign = kind
+                if kind != "outcome" and prop not in INTEGRATION:
+                    later = later_divergence(mlog, ilog, at, owned)
+                    if later is not None:
+                        raise Violation(prop, f"model.{later[0]}", later[1], sig=f"{prop}:model.{later[0]}", at=later[2])
             if True:
                 # topic types of the feedback entries
                 if prop == "C11" and foreign is None:
@@ -1487,6 +1526,18 @@ def execute(plan, trace=False):
             result_box["exc"] = f"{type(e).__name__}: {e} :: " + traceback.format_exc()[-600:]
 
     try:
+        if cfg.get("pre_robot"):
+            # two robots in one process (a practice robot class and the competition robot derived from it, or simply a
+            # second instance): the first one is only initialised; nothing of it may leak into the second
+            sim.muted = True
+            base_names = {c["name"] for c in cfg["components"] if c["in_base_robot"]}
+            base_alone = cfg["split_robot"] and all(c.get("inject_comp") in base_names or not c.get("inject_comp")
+                                                    for c in cfg["components"] if c["in_base_robot"])
+            pre = (mod.BaseRobot if base_alone else Robot)()
+            pre.robotInit()
+            sim.pre_robot = pre
+            sim.muted = False
+            sim.fault("earlier_robot_in_same_process")
         robot = Robot()
         sim.robot = robot
         if os.environ.get("VERIF_THREADED") == "1":
